@@ -96,12 +96,16 @@ def run_tool_case(case):
                         travsim.CTX.step_index = index
                         try:
                             if case.get("inject_exception_at") == index:
-                                raise RuntimeError("injected tool failure")
+                                calls[index]["injected"] = True
+                                kinds = {"RuntimeError": RuntimeError, "TimeoutError": TimeoutError, "KeyError": KeyError, "OSError": OSError,
+                                         "TypeError": TypeError, "AssertionError": AssertionError, "ValueError": ValueError}
+                                raise kinds[case.get("inject_exception_type", "RuntimeError")]("injected tool failure")
                             result = function(config, tag=tag)
                             calls[index]["returned"] = result
                             return result
                         except Exception as error:
                             calls[index]["exception"] = type(error).__name__
+                            calls[index]["exception_message"] = str(error)[:300]
                             raise
                         finally:
                             calls[index]["last_event"] = len(travsim.CTX.events)
